@@ -31,3 +31,10 @@ def nontrivial(case, model_out):
     b = tagbits(case)
     # tag bits: 0 admitted, 1 rejected before the budget check, 2 budget, 3 verification, 4 bucket cap, 5 duplicate
     return bool(b & 1) and bool(b & ((1 << 3) | (1 << 4) | (1 << 5)))
+
+
+from . import poolcommon as _pc
+
+
+def judge(case, model_out):
+    return _pc.judge_c19(case, model_out)
